@@ -10,6 +10,7 @@ from hypothesis import strategies as st
 
 from .. import gen, loader, universe
 from ..engine import Outcome, Prop
+from . import c08
 
 HERE = os.path.dirname(os.path.abspath(__file__))
 with open(os.path.join(os.path.dirname(os.path.dirname(HERE)), "data", "dialect_fields.json")) as _f:
@@ -25,8 +26,10 @@ DIALECT_COLUMN_KEYS = {"encrypt", "encode", "distkey"}
 
 @st.composite
 def gen_case(draw):
-    blocks = draw(universe.script(1, 3, kinds=universe.BLOCK_KINDS + ["dtable", "alter"]))
-    return {"src": "gen", "blocks": blocks, "layout": draw(gen.layout(max_len=40)), "group": draw(st.booleans()), "norm": draw(st.booleans())}
+    blocks = draw(universe.script(1, 3, kinds=universe.BLOCK_KINDS + ["dtable", "alter", "rtable"]))
+    # comments of every style (C08's generator): line pre-processing happens before the mode is applied and must not depend on it
+    ops = [draw(c08.comment_op(i)) for i in range(draw(st.sampled_from([0, 0, 1, 2, 3])))]
+    return {"src": "gen", "blocks": blocks, "layout": draw(gen.layout(max_len=40)), "group": draw(st.booleans()), "norm": draw(st.booleans()), "ops": ops}
 
 
 @st.composite
@@ -103,7 +106,12 @@ class C10(Prop):
     def text(self, case):
         if case["src"] == "corpus":
             return universe.corpus()[case["item"]]["ddl"]
-        return universe.render_blocks(case["blocks"], case["layout"])
+        text = universe.render_blocks(case["blocks"], case["layout"])
+        if case.get("ops"):
+            nl = "\r\n" if "\r\n" in text else "\n"
+            lines, _, _ = c08.apply_ops(text.split(nl), case["ops"])
+            text = nl.join(lines)
+        return text
 
     def describe(self, case):
         d = {"ddl": self.text(case), "group_by_type": case["group"], "normalize_names": case["norm"]}
